@@ -16,7 +16,7 @@ ATTR = {('Domain', 'attrs'): 'seq:obj', ('Domain', 'shape'): 'seq:int', ('Domain
 
 def inv(d):
     return ['len(%s.attrs) == len(%s.shape)' % (d, d),
-            'forall(lambda i: first_index(%s.attrs, %s.attrs[i]) == i, 0, len(%s.attrs))' % (d, d, d),
+            'is_distinct(%s.attrs)' % d,
             'forall(lambda i: %s.config[%s.attrs[i]] == %s.shape[i], 0, len(%s.attrs))' % (d, d, d, d)]
 
 
@@ -26,7 +26,7 @@ def inv_named(d, prefix):
 
 
 def distinct(s):
-    return 'forall(lambda i: first_index(%s, %s[i]) == i, 0, len(%s))' % (s, s, s)
+    return 'is_distinct(%s)' % s
 
 
 BASE = dict(attr_types=ATTR, sequences=True)
